@@ -166,10 +166,12 @@ type RunResult struct {
 	Plan       []planGroup // the plan announced by the init event
 	Waits      []WSched    // probe runs: the reconciling deliveries that were sent
 	NReq       int
-	Failures   []string // hangs, leaks, unexpected requests (implementation or harness level)
-	Hung       bool     // the watchdog fired: the pipeline may still be running against the store
-	LateSent   int      // late status deliveries the runner took
-	SelfClosed int      // the scripted watcher closed its channel by itself after a fatal error
+	Failures   []string       // hangs, leaks, unexpected requests (implementation or harness level)
+	Hung       bool           // the watchdog fired: the pipeline may still be running against the store
+	LateSent   int            // late status deliveries the runner took
+	SelfClosed int            // the scripted watcher closed its channel by itself after a fatal error
+	Univ       Universe       // the universe as this run saw it (per-run flags: Universe.forRun); goes into the recorded scenario
+	MutGets    map[string]int // GETs of substitution sources by the apply-time mutator: ok / missing / rejected
 	srv        *Server
 	text       string
 }
@@ -236,6 +238,8 @@ func Probe(st *Store, sc Scenario) RunResult {
 }
 
 func execRun(st *Store, sc Scenario, auto bool, sess *Session) (res RunResult) {
+	sc.Univ = sc.Univ.forRun(st)
+	res.Univ = sc.Univ
 	markRun(st, sc, auto)
 	clock := &Clock{}
 	bd := newBoard()
@@ -363,6 +367,12 @@ func execRun(st *Store, sc Scenario, auto bool, sess *Session) (res RunResult) {
 		return a.N < b.N
 	})
 	res.Addrs, res.Plan, res.NReq = addrs, cons.initPlan, nreq
+	srv.mu.Lock()
+	res.MutGets = map[string]int{}
+	for k, v := range srv.mutGets {
+		res.MutGets[k] = v
+	}
+	srv.mu.Unlock()
 	w.mu.Lock()
 	res.Waits, res.LateSent, res.SelfClosed = w.autoWaits, w.lateSent, w.selfClosed
 	w.mu.Unlock()
